@@ -1,9 +1,5 @@
-int main(void) {
-	int x = 2, y = 0;
-	do {
-		if (x == 1)
-			continue;
-		++y;
-	} while (x--);
-	return y != 2;
+/* C11 6.7.3p9 - type qualifiers on array type qualify the element type */
+typedef int T[2];
+void f(const T x) {
+	x = 0;
 }
